@@ -65,12 +65,12 @@ def compare(A, Aref, E, factor=TOL_FACTOR):
 class FormRunner:
     """Compile one spec once; evaluate kernels against the reference for chosen integrals/entities."""
 
-    def __init__(self, spec, workdir, scalar_type="float64", options=None, cflags=("-O1",), name="m"):
+    def __init__(self, spec, workdir, scalar_type="float64", options=None, cflags=("-O1",), name="m", built=None):
         self.spec = spec
         self.scalar_type = scalar_type
         self.options = dict(options or {})
         self.options["scalar_type"] = scalar_type
-        self.built = specs.build(strip_meta(spec))
+        self.built = built if built is not None else specs.build(strip_meta(spec))
         self.form = self.built.form
         self.module = None
         self.workdir = workdir
